@@ -32,6 +32,9 @@ def jobs(tier):
             out.append({"name": "mgm-chain3-allsched-%s" % mode, "algo": "mgm", "spec": spec("chain3", mode), "stop": 3,
                         "upfront": True})
         out.append({"name": "mgm-pairvcost-%s" % mode, "algo": "mgm", "spec": spec("pair_vcost", mode), "stop": 3})
+        # costs above 2**53 (exact as Python ints, not as floats)
+        out.append({"name": "mgm-pair-bigint-%s" % mode, "algo": "mgm", "spec": spec("pair", mode), "stop": 3,
+                    "range": (0, 2 ** 54 - 4)})
         # non-default tie-break parameter
         out.append({"name": "mgm-pair-breakrandom-%s" % mode, "algo": "mgm", "spec": spec("pair", mode), "stop": 3,
                     "params": {"break_mode": "random"}})
